@@ -450,6 +450,12 @@ let cpath_str (p : coq_N list list) : string =
 let bytes_of_string (s : string) : coq_N list =
   Stdlib.List.init (String.length s) (fun i -> n_of_int (Char.code s.[i]))
 
+(* the keys whose values the CHAIN histories set, clear and compare through every level
+   (same order as chain_keys[] in harness/attr_drv.c) *)
+let chain_watched = [ "addrxlat.force.phys_base"; "addrxlat.force.page_shift"; "addrxlat.force.virt_bits";
+  "addrxlat.force.rootpgt.addr"; "addrxlat.default.phys_base"; "addrxlat.default.phys_bits";
+  "addrxlat.default.rootpgt.as"; "max_pfn"; "xen.phys_start"; "xen.p2m_mfn"; "file.zero_excluded" ]
+
 let chain_history (ops : string list) (outs : string list) : string =
   let bad fmt = Printf.ksprintf (fun s -> raise (Bad s)) fmt in
   let tok pre = Stdlib.List.filter_map (fun t ->
@@ -458,8 +464,12 @@ let chain_history (ops : string list) (outs : string list) : string =
   let init = match tok "I:" with
     | [l] -> Stdlib.List.map cpath_of_str (split_on ',' l)
     | _ -> bad "no initial table in the driver's output" in
-  let s = ref { AttrChain.dicts = [ { AttrChain.d_alive = true; d_fallback = None; d_refs = nat_of_int 1 } ];
-                attrs = Stdlib.List.map (fun p -> { AttrChain.a_path = p; a_table = Datatypes.O; a_tree = Datatypes.O }) init } in
+  let vs = ref { AttrChainVal.cs =
+      { AttrChain.dicts = [ { AttrChain.d_alive = true; d_fallback = None; d_refs = nat_of_int 1 } ];
+        attrs = Stdlib.List.map (fun p -> { AttrChain.a_path = p; a_table = Datatypes.O; a_tree = Datatypes.O }) init };
+      vals = (fun _ _ -> None) } in
+  let s = ref !vs.AttrChainVal.cs in
+  let sync () = s := !vs.AttrChainVal.cs in
   let ctxs = ref [ Some 0 ] in
   let nfiles = ref 0 in
   let b = bytes_of_string in
@@ -467,7 +477,10 @@ let chain_history (ops : string list) (outs : string list) : string =
   let singles = [ []; [xl]; [xl; b "ostype"] ] and roots = [ [xl; b "default"]; [xl; b "force"] ] in
   let lines = [ b "linux"; b "vmcoreinfo"; b "lines" ] in
   let ctx i = try Stdlib.List.nth !ctxs i with _ -> None in
-  let wf op = if not (AttrChain.invb !s) then bad "%s: the model state is not well-formed (invb)" op in
+  let watched = Stdlib.List.map (fun k -> Stdlib.List.map b (split_on '.' k)) chain_watched in
+  let wf op = sync ();
+    if not (AttrChainVal.dwfb !s) then bad "%s: a fallback pointer of the model does not lead to an older dictionary (dwfb)" op;
+    if not (AttrChain.invb !s) then bad "%s: the model state is not well-formed (invb)" op in
   wf "start";
   Stdlib.List.iter (fun op ->
     (match split_on ':' op with
@@ -476,20 +489,22 @@ let chain_history (ops : string list) (outs : string list) : string =
           | Some d ->
               let n = Stdlib.List.length !s.AttrChain.dicts in
               let priv = AttrChain.clone_priv !s (nat_of_int d) singles roots in
-              s := AttrChain.clone_xlat_ref !s (nat_of_int d) priv;
+              vs := AttrChainVal.vclone_xlat !vs (nat_of_int d) priv;
               ctxs := !ctxs @ [ Some n ]
           | None -> ctxs := !ctxs @ [ None ])
      | ["N"; i] ->
          (match ctx (int_of_string i) with
-          | Some d -> s := AttrChain.clone_shared !s (nat_of_int d); ctxs := !ctxs @ [ Some d ]
+          | Some d -> vs := AttrChainVal.vclone_shared !vs (nat_of_int d); ctxs := !ctxs @ [ Some d ]
           | None -> ctxs := !ctxs @ [ None ])
      | ["V"; i; j; n] ->
          (match ctx (int_of_string i) with
           | Some d ->
               let d = nat_of_int d in
-              s := AttrChain.remove_below !s d lines true;
+              vs := AttrChainVal.vremove_below !vs d lines true;
               for k = int_of_string j to int_of_string j + int_of_string n - 1 do
-                s := AttrChain.create_path !s d [] (lines @ [ b (Printf.sprintf "K%d" k) ])
+                let p = lines @ [ b (Printf.sprintf "K%d" k) ] in
+                vs := AttrChainVal.vcreate_path !vs d p;
+                vs := AttrChainVal.vset !vs d p (Some (n_of_int k))      (* the line K<k>=v<k> *)
               done
           | None -> ())
      | ["S"; i; n] ->
@@ -498,22 +513,31 @@ let chain_history (ops : string list) (outs : string list) : string =
               let d = nat_of_int d and n = int_of_string n in
               let set k = [ b "file"; b "set"; b (string_of_int k) ] in
               for k = !nfiles to n - 1 do
-                s := AttrChain.create_path !s d [] (set k);
-                s := AttrChain.create_path !s d [] (set k @ [ b "fd" ]);
-                s := AttrChain.create_path !s d [] (set k @ [ b "name" ])
+                vs := AttrChainVal.vcreate_path !vs d (set k);
+                vs := AttrChainVal.vcreate_path !vs d (set k @ [ b "fd" ]);
+                vs := AttrChainVal.vcreate_path !vs d (set k @ [ b "name" ])
               done;
-              for k = n to !nfiles - 1 do s := AttrChain.remove_below !s d (set k) false done;
+              for k = n to !nfiles - 1 do vs := AttrChainVal.vremove_below !vs d (set k) false done;
               nfiles := n
           | None -> ())
      | ["F"; i] ->
          let i = int_of_string i in
          (match ctx i with
           | Some d ->
-              s := AttrChain.release (nat_of_int (Stdlib.List.length !s.AttrChain.dicts + 1)) !s (nat_of_int d);
+              vs := AttrChainVal.vrelease (nat_of_int (Stdlib.List.length !s.AttrChain.dicts + 1)) !vs (nat_of_int d);
               ctxs := Stdlib.List.mapi (fun j c -> if j = i then None else c) !ctxs
+          | None -> ())
+     | ["A"; i; k; v] ->          (* set watched key k to the number / address v through level i *)
+         (match ctx (int_of_string i) with
+          | Some d -> vs := AttrChainVal.vset !vs (nat_of_int d) (Stdlib.List.nth watched (int_of_string k)) (Some (n_of_int (int_of_string v)))
+          | None -> ())
+     | ["U"; i; k] ->             (* clear it (NIL) *)
+         (match ctx (int_of_string i) with
+          | Some d -> vs := AttrChainVal.vset !vs (nat_of_int d) (Stdlib.List.nth watched (int_of_string k)) None
           | None -> ())
      | _ -> bad "bad op %s" op);
     wf op) ops;
+  sync ();
   (* the chains of the live contexts *)
   Stdlib.List.iteri (fun i c ->
     let got = tok (Printf.sprintf "K%d:" i) in
@@ -524,7 +548,22 @@ let chain_history (ops : string list) (outs : string list) : string =
     | Some d, g :: _ ->
         let want = String.concat ">" (Stdlib.List.map (fun k -> string_of_int (int_of_nat k))
                                         (AttrChain.chain !s (nat_of_int d))) in
-        if want <> g then bad "fallback chain of context %d: the library has %s, the model %s" i g want) !ctxs;
+        if want <> g then bad "fallback chain of context %d: the library has %s, the model %s" i g want;
+        (* the values that this level shows *)
+        let show p = match AttrChainVal.vget !vs (nat_of_int d) p with Some n -> string_of_int (int_of_n n) | None -> "-" in
+        let cmp tag names paths =
+          match tok (Printf.sprintf "%s%d:" tag i) with
+          | [] -> bad "no %s values reported for context %d" tag i
+          | gl :: _ ->
+              let gv = split_on ',' gl in
+              if Stdlib.List.length gv <> Stdlib.List.length paths then bad "%s%d: wrong number of values" tag i;
+              Stdlib.List.iter2 (fun (nm, p) g ->
+                let w = show p in
+                if w <> g then bad "value of %s through context %d (dictionary %d): the library shows %s, the model %s" nm i d g w)
+                (Stdlib.List.combine names paths) gv in
+        cmp "G" chain_watched watched;
+        let ks = Stdlib.List.init 53 (fun k -> Printf.sprintf "K%d" k) in
+        cmp "L" (Stdlib.List.map (fun k -> "linux.vmcoreinfo.lines." ^ k) ks) (Stdlib.List.map (fun k -> lines @ [ b k ]) ks)) !ctxs;
   (* the live dictionaries and their hash tables *)
   let alive = Stdlib.List.map int_of_nat (AttrChain.alive_dicts !s) in
   let reported = Stdlib.List.filter_map (fun t ->
